@@ -91,6 +91,39 @@ def parse_mc_stats(out):
     return {"generated": int(m.group(1)), "distinct": int(m.group(2))}
 
 
+def spec_digest(cfg):
+    """content hash of everything a bounded model depends on: all spec modules, its cfg, the ExactQ override"""
+    h = hashlib.sha1()
+    for fn in sorted(os.listdir(SPEC)):
+        if fn.endswith(".tla") or fn == cfg:
+            with open(os.path.join(SPEC, fn), "rb") as f:
+                h.update(fn.encode() + b"\0" + f.read())
+    with open(os.path.join(V, "java", "verifx", "ExactQ.java"), "rb") as f:
+        h.update(f.read())
+    return h.hexdigest()
+
+
+def run_mc_cached(prop, tier, mc):
+    """Thorough tier only: a bounded model does not depend on the code under test, so an identical model
+    (same spec modules, cfg and override, by content hash) that was already checked in this /verif/build is not
+    re-run; the evidence marks such entries with from_cache."""
+    if tier != "thorough":
+        return run_mc(prop, tier, mc)
+    cfg = mc.get("cfg_thorough") or mc["cfg"]
+    cdir = os.path.join(BUILD, "mc_cache")
+    os.makedirs(cdir, exist_ok=True)
+    key = os.path.join(cdir, f"{mc['name']}-{spec_digest(cfg)}.json")
+    if os.path.exists(key):
+        with open(key) as f:
+            st = json.load(f)
+        st["from_cache"] = True
+        return st, ""
+    st, out = run_mc(prop, tier, mc)
+    with open(key, "w") as f:
+        json.dump(st, f)
+    return st, out
+
+
 def run_mc(prop, tier, mc):
     """exhaustive TLC run of a bounded model; returns stats; any error is a tool error
     (the models do not depend on the code: a failure means the specification itself is broken)"""
@@ -133,7 +166,7 @@ def run_gen(prop, tier, gen, workdir):
                     continue
                 f.write(s[5:] + "\n")
                 n += 1
-                if n % 300 == 0:
+                if gen.get("reset_every", 300) and n % gen.get("reset_every", 300) == 0:
                     f.write('{"ev":"Reset","sc":"generated"}\n')   # lets the trace be validated in parallel chunks
     st = parse_mc_stats(out) or {"distinct": 0, "generated": 0}
     return path, n, {"model": gen["name"], "cfg": cfg, "states": st["distinct"], "transitions": st["generated"],
@@ -144,11 +177,17 @@ class DriverCrashed(Exception):
     pass
 
 
+class DriverHung(Exception):
+    """a single call into the crate under test did not return (watchdog of the driver)"""
+
+
 def run_driver(scenario, seed, tier, out_path, cases=None, timeout=3600, crash_ok=False):
     cmd = ["timeout", str(timeout), DRIVER, scenario, "--out", out_path, "--seed", str(seed), "--tier", tier]
     if cases:
         cmd += ["--cases", cases]
     r = subprocess.run(cmd, capture_output=True, text=True)
+    if r.returncode == 77 and os.path.exists(out_path + ".hang"):
+        raise DriverHung(open(out_path + ".hang").read().strip())
     if r.returncode != 0:
         # the process was killed by a signal (timeout(1) reports 128+n, python a negative code): the code under
         # test crashed the process - for scenarios that exercise an unchecked cast that is an observation
@@ -327,7 +366,7 @@ def main():
             for mc in P.get("mc", []):
                 if tier == "quick" and mc.get("thorough_only"):
                     continue
-                st, _ = run_mc(prop, tier, mc)
+                st, _ = run_mc_cached(prop, tier, mc)
                 mc_stats.append(st)
                 log(f"[{prop}] MC {st}")
             for aux in P.get("aux", []):
@@ -347,16 +386,37 @@ def main():
                 gen_stats.append(st)
                 log(f"[{prop}] GEN {st}")
                 out = os.path.join(work, gen["name"] + ".trace.ndjson")
-                msg = run_driver(gen["scenario"], seed, tier, out, cases=path)
+                try:
+                    msg = run_driver(gen["scenario"], seed, tier, out, cases=path)
+                except DriverHung as e:
+                    os.makedirs(os.path.join(V, "replays"), exist_ok=True)
+                    rp = os.path.join(V, "replays", f"{prop}-s{seed}-{gen['name']}-hang.txt")
+                    with open(rp, "w") as f:
+                        f.write(f"re-run: harness driver {gen['scenario']} --cases <{gen['name']} cases> --seed {seed}\n{e}\n")
+                    violations.append((f"{prop}|{gen['name']}|call-does-not-return", rp, str(e)[:400]))
+                    continue
                 log(f"[{prop}] driver {gen['scenario']}: {msg}")
                 traces.append((gen["name"], out))
+            # thorough: every seeded scenario is run with three seeds (seed, seed + 1000, seed + 2000)
+            plan = []
             for sc in P.get("scenarios", []):
+                for k in range(3 if tier == "thorough" else 1):
+                    plan.append((sc, seed + 1000 * k, k))
+            for sc, sc_seed, k in plan:
                 crash_sig = None
                 if isinstance(sc, dict):
                     sc, crash_sig = sc["name"], sc.get("crash_is_violation")
-                out = os.path.join(work, sc + ".trace.ndjson")
+                out = os.path.join(work, sc + (f".s{k}" if k else "") + ".trace.ndjson")
                 try:
-                    msg = run_driver(sc, seed, tier, out, crash_ok=bool(crash_sig))
+                    msg = run_driver(sc, sc_seed, tier, out, crash_ok=bool(crash_sig))
+                except DriverHung as e:
+                    os.makedirs(os.path.join(V, "replays"), exist_ok=True)
+                    rp = os.path.join(V, "replays", f"{prop}-s{seed}-{sc}-hang.txt")
+                    with open(rp, "w") as f:
+                        f.write(f"re-run: harness driver {sc} --seed {sc_seed} --tier {tier}\n{e}\n")
+                    violations.append((f"{prop}|{sc}|call-does-not-return", rp, str(e)[:400]))
+                    log(f"[{prop}] driver {sc}: HANG")
+                    continue
                 except DriverCrashed as e:
                     os.makedirs(os.path.join(V, "replays"), exist_ok=True)
                     rp = os.path.join(V, "replays", f"{prop}-s{seed}-{sc}-crash.txt")
@@ -366,7 +426,7 @@ def main():
                     log(f"[{prop}] driver {sc}: CRASHED")
                     continue
                 log(f"[{prop}] driver {sc}: {msg}")
-                traces.append((sc, out))
+                traces.append((sc + (f"-s{k}" if k else ""), out))
 
         known = [k for k in load_known() if k.get("property") == prop]
         from concurrent.futures import ThreadPoolExecutor
